@@ -41,6 +41,7 @@ BASE = 1 << 24
 INLINE_FORMS = ("func", "brace", "subsh", "loop")
 KF_EPIPE_LOOP = "KF-C11-epipe-loop"
 KF_READ_UTF8 = "KF-C11-read-non-ascii"
+KF_PIPESTATUS_WHILE = "KF-C11-pipestatus-after-while"
 # payload flavours: "ascii" = 64-byte lines of digits; "utf8" = 61-byte lines of 11 digits followed by 2-, 3- and
 # 4-byte characters, so that 64 KiB read/write boundaries fall inside characters at ever-changing offsets
 UTF8_TAIL = ("\u00e9" * 2 + "\u20ac" * 7 + "\U0001F600" * 6).encode("utf-8") + b"\n"
@@ -654,6 +655,120 @@ def dec_raw(s):
     return s.encode("latin-1", "replace")
 
 
+# ------------------------------------------------------------------ status sequences in ONE shell (differential + oracle)
+# `$(cmd)` returns cmd's output "together with its status": the status of an assignment-only command is that of its
+# last substitution whatever `$?` was before. Several substitutions / pipelines run in one shell, statuses drawn from a
+# small set so that the previous `$?` often EQUALS the next status (a change-detecting implementation then fails).
+# `p` prints `$? PIPESTATUS` and RESTORES `$?`, so that the next command starts from the status of the previous one
+SEQ_PRELUDE = ("p() { local r=$? ps=\"${PIPESTATUS[*]}\"; echo \"$r $ps\"; return $r; }\n" "fl() { local v=$(exit $1); }\nfl2() { local v; v=$(exit $1); }\nfe() { export EV=$(exit $1); }\n"
+               "fr() { return $1; }\n")
+
+
+def seq_stmt(rng):
+    """-> (text, function from previous status to expected `$?`)"""
+    a, b = rng.choice([0, 0, 1, 1, 3]), rng.choice([0, 1, 3])
+    inv = lambda x: 1 if x == 0 else 0
+    forms = [
+        ("x=$(exit %d)" % a, lambda p: a),
+        ("x=$(exit %d) y=$(exit %d)" % (a, b), lambda p: b),
+        ("x=$( (exit %d) )" % a, lambda p: a),
+        ("x=$(y=$(exit %d))" % a, lambda p: a),
+        ("x=$( $(echo exit) %d )" % a, lambda p: a),
+        ("x=$(echo $(exit %d))" % a, lambda p: 0),
+        ("x=`exit %d`" % a, lambda p: a),
+        ("x=$(fr %d)" % a, lambda p: a),
+        ("x=$(printf 'q\\n\\n'; exit %d); echo \"[$x]\"" % a, lambda p: 0),
+        ("echo \"$(exit %d)\" >/dev/null" % a, lambda p: 0),
+        (": $(exit %d)" % a, lambda p: 0),
+        ("fl %d" % a, lambda p: 0),
+        ("fl2 %d" % a, lambda p: a),
+        ("fe %d" % a, lambda p: 0),
+        ("declare dv=$(exit %d)" % a, lambda p: 0),
+        ("if x=$(exit %d); then echo T; else echo F; fi" % a, lambda p: 0),
+        ("x=$(exit %d) || echo O" % a, lambda p: a if a == 0 else 0),
+        ("x=$(exit %d) && echo A" % a, lambda p: a),
+        ("! x=$(exit %d)" % a, lambda p: inv(a)),
+        ("until x=$(exit %d); do echo L; break; done" % a, lambda p: 0),
+        ("while x=$(exit %d); do echo W; break; done" % a, lambda p: 0),
+        ("(exit %d) | (exit %d)" % (a, b), lambda p: b),
+        ("x=$( (exit %d) | (exit %d) )" % (a, b), lambda p: b),
+        ("x=$(set -o pipefail; (exit %d) | (exit %d))" % (a, b), lambda p: b if b else a),
+        ("(exit %d)" % a, lambda p: a),
+        ("fr %d" % a, lambda p: a),
+        ("x=plain", lambda p: 0),
+        ("x=$(true)$(exit %d)" % a, lambda p: a),
+        ("arr=($(exit %d))" % a, lambda p: a),
+        ("x=${y:-$(exit %d)}" % a, lambda p: a),
+        ("x=$(exit %d) true" % a, lambda p: 0),
+    ]
+    t, f = rng.choice(forms)
+    return (t, f)
+
+
+def while_failed(text):
+    """class of KF-C11-pipestatus-after-while: a `while` loop whose condition (an assignment-only substitution) failed"""
+    import re
+    mm = re.match(r"while x=\$\(exit (\d+)\);", text)
+    return bool(mm) and mm.group(1) != "0"
+
+
+def gen_statseq(ctx):
+    rng = ctx.rng
+    cases = []
+    for _ in range(500 if ctx.quick else 4000):
+        stmts = [seq_stmt(rng) for _ in range(rng.randrange(3, 9))]
+        cases.append(stmts)
+    # the directed ones: same status before and after, for every form
+    for a in (0, 1, 3):
+        for txt in ("x=$(exit %d)", "x=$(y=$(exit %d))", "fl2 %d", "x=`exit %d`", "arr=($(exit %d))"):
+            cases.append([("(exit %d)" % a, lambda p, a=a: a), (txt % a, lambda p, a=a: a), (txt % a, lambda p, a=a: a)])
+    cases.append([("tries=0", lambda p: 0),
+                  ("until out=$(echo probing; exit 1); do tries=$((tries+1)); if [ $tries -ge 3 ]; then break; fi; false; done; echo \"tries=$tries\"", lambda p: 0)])
+    return cases
+
+
+def statseq_script(stmts):
+    return SEQ_PRELUDE + "".join(t + "\np\n" for t, _ in stmts)
+
+
+def eval_statseq(ctx):
+    """verdict: code vs bash on the whole transcript (differential); the python status rule is checked against bash too"""
+    cases = gen_statseq(ctx)
+    scripts = [statseq_script(c) for c in cases]
+    impl = ctx.impl("sh", [["s", s] for s in scripts])
+    bash = bash_batch(scripts)
+    specv = []
+    for stmts, s, il, bo in zip(cases, scripts, impl, bash):
+        o = sh_out(il)
+        got = o[1] if o else il.encode()[:200]
+        # python rule for `$?` vs bash (keeps the oracle honest)
+        blines = [l for l in bo.decode("utf-8", "replace").split("\n")]
+        st_lines = [l for l in blines if l and l.split()[0].isdigit() and all(x.isdigit() for x in l.split())]
+        prev, want = 0, []
+        for _, f in stmts:
+            prev = f(prev)
+            want.append(str(prev))
+        if [l.split()[0] for l in st_lines][:len(want)] != want and len(st_lines) == len(want):
+            raise core.CheckBroken("status rule and bash disagree on %r: bash %r, rule %r" % (s, st_lines, want))
+        if got != bo:
+            v = {"input": {"script": s}, "why": "transcript of `$? PIPESTATUS` after each command differs from bash: %r vs %r" % (
+                got.decode("utf-8", "replace")[-300:], bo.decode("utf-8", "replace")[-300:])}
+            # known: only PIPESTATUS (not `$?`) differs, and only right after a `while` whose condition failed
+            gl, bl = got.decode("utf-8", "replace").split("\n"), bo.decode("utf-8", "replace").split("\n")
+            if len(gl) == len(bl):
+                ok, k = True, 0
+                for x, y in zip(gl, bl):
+                    is_st = bool(y) and all(w.isdigit() for w in y.split())
+                    if x != y and not (is_st and k < len(stmts) and while_failed(stmts[k][0]) and x.split()[:1] == y.split()[:1]):
+                        ok = False
+                    if is_st:
+                        k += 1
+                if ok:
+                    v["known"] = KF_PIPESTATUS_WHILE
+            specv.append(v)
+    return cases, specv
+
+
 # ------------------------------------------------------------------ fixed scenarios (bash parity only)
 SCENARIOS = [
     ("own-example", "seq 100000 | while read l; do echo $l; done | wc -l", False),
@@ -764,6 +879,7 @@ def run_(ctx):
         pv_n += len(sub)
     t2 = time.time()
     st_cases, st_model, st_mism, st_specv, vs_bash = eval_status(ctx)
+    sq_cases, sq_specv = eval_statseq(ctx)
     t3 = time.time()
     raws, sp_model, sp_mism, sp_specv = eval_strip(ctx)
     t4 = time.time()
@@ -782,15 +898,18 @@ def run_(ctx):
     xs += crosscheck(ctx, "c11_status", [[str(pf), str(bg)] + [str(c) for c in cs] for pf, bg, cs in st_cases], st_model)
     xs += crosscheck(ctx, "c11_strip", [[enc_raw(r)] for r in raws], sp_model)
     mism = ev["mism"] + pv_mism + st_mism + sp_mism
-    specv = ev["specv"] + pv_specv + st_specv + sp_specv + scen_specv
+    specv = ev["specv"] + pv_specv + st_specv + sq_specv + sp_specv + scen_specv
     ctx.notes.append("wall: sched %.0fs, pause variants %.0fs, status %.0fs, strip %.0fs, scenarios %.0fs, vm_compute cross-check %.0fs" % (
         t1 - t0, t2 - t1, t3 - t2, t4 - t3, t5 - t4, time.time() - t5))
     nontriv = {repr(c) for c in sched_cases if flow(c)[0][2] > 0} | \
               {repr(c) for c in st_cases if len(c[2]) > 1} | {r for r in raws if r.endswith(b"\n")}
-    ev["dist"].update({"status_cases": len(st_cases), "strip_cases": len(raws), "scenarios": scen,
+    ev["dist"].update({"status_sequences_in_one_shell": len(sq_cases),
+                       "proof_backed": "sched (model+theorems+correspondence), status vectors, substitution strip",
+                       "differential_only": "status sequences in one shell (code vs bash, python rule for `$?`), fixed scenarios",
+                       "status_cases": len(st_cases), "strip_cases": len(raws), "scenarios": scen,
                        "pause_variant_runs": pv_n, "pause_configs": PAUSES})
     return {
-        "evaluations": len(sched_cases) + pv_n + len(st_cases) + len(raws) + len(SCENARIOS),
+        "evaluations": len(sched_cases) + pv_n + len(st_cases) + len(sq_cases) + len(raws) + len(SCENARIOS),
         "distinct_nontrivial": len(nontriv),
         "rule": "sched: pipelines of 2-4 stages at process level, each stage (behaviour, form) with behaviour in {source n, cat, head k, "
                 "drop d, read-one-line, sink} and form in {external, builtin, function, brace group, subshell, while/for-read loop}; "
